@@ -7,6 +7,7 @@ package fbb
 import (
 	"bufio"
 	"bytes"
+	"unicode/utf8"
 
 	"github.com/paulrosania/go-charset/charset"
 	_ "github.com/paulrosania/go-charset/data"
@@ -27,7 +28,7 @@ func StringToBody(str, encoding string) ([]byte, error) {
 		line = in.Bytes()
 		for {
 			// Lines can not be longer that 1000 characters including CRLF.
-			n := min(len(line), 1000-2)
+			n := wrapLen(line, 1000-2)
 
 			out.Write(line[:n])
 			out.WriteString("\r\n")
@@ -46,6 +47,20 @@ func StringToBody(str, encoding string) ([]byte, error) {
 
 	_, translated, err := translator.Translate(out.Bytes(), true)
 	return translated, err
+}
+
+// wrapLen returns the number of bytes of line (at most max) to put on the next
+// output line, without splitting a multi-byte UTF-8 character.
+func wrapLen(line []byte, max int) int {
+	if len(line) <= max {
+		return len(line)
+	}
+	for n := max; n > max-utf8.UTFMax && n > 0; n-- {
+		if utf8.RuneStart(line[n]) {
+			return n
+		}
+	}
+	return max
 }
 
 func min(a, b int) int {
